@@ -75,22 +75,48 @@ Definition c64_zero : rgba64 := mkC64 0 0 0 0.
 Definition to_u16 (x : f64) : Z :=
   match ftrunc F64 x with Some i => i mod 65536 | None => 0 end.
 
-Fixpoint search (stops : list gstop) (offset : f64) (last : rgba64) : rgba64 :=
+(* the core of Gradient.At — locating the range of an offset and interpolating in premultiplied space —
+   written once over an abstract numeric type: float64 instance below (compared with gradient.go), R instance
+   in proofs/AtR.v *)
+Record atops (T : Type) := mkAtOps {
+  t_le : T -> T -> bool; t_lt : T -> T -> bool; t_ge0 : T -> bool;
+  t_add : T -> T -> T; t_sub : T -> T -> T; t_mul : T -> T -> T; t_div : T -> T -> T;
+  t_one : T; t_ofZ : Z -> T; t_u16 : T -> Z
+}.
+Arguments t_le {T}. Arguments t_lt {T}. Arguments t_ge0 {T}. Arguments t_add {T}. Arguments t_sub {T}.
+Arguments t_mul {T}. Arguments t_div {T}. Arguments t_one {T}. Arguments t_ofZ {T}. Arguments t_u16 {T}.
+
+Definition interp_gen {T} (O : atops T) (o0 o1 offset : T) (c0 c1 : rgba64) : rgba64 :=
+  let w := t_sub O o1 o0 in
+  let t := t_div O (t_sub O offset o0) w in
+  let s := t_sub O (t_one O) t in
+  let ch (a b : Z) := t_u16 O (t_add O (t_mul O s (t_ofZ O a)) (t_mul O t (t_ofZ O b))) in
+  mkC64 (ch (c_r c0) (c_r c1)) (ch (c_g c0) (c_g c1)) (ch (c_b c0) (c_b c1)) (ch (c_a c0) (c_a c1)).
+
+Fixpoint search_gen {T} (O : atops T) (stops : list (T * rgba)) (offset : T) (last : rgba64) : rgba64 :=
   match stops with
-  | s0 :: ((s1 :: _) as rest) =>
-      let o0 := f32_to_f64 (gs_off s0) in
-      let o1 := f32_to_f64 (gs_off s1) in
-      if fle F64 o0 offset && fle F64 offset o1 then
-        let w := fsub F64 o1 o0 in
-        let t := fdiv F64 (fsub F64 offset o0) w in
-        let s := fsub F64 d_one t in
-        let ch (a b : Z) := to_u16 (fadd F64 (fmul F64 s (of_Z F64 a)) (fmul F64 t (of_Z F64 b))) in
-        let c0 := c64_of (gs_col s0) in
-        let c1 := c64_of (gs_col s1) in
-        mkC64 (ch (c_r c0) (c_r c1)) (ch (c_g c0) (c_g c1)) (ch (c_b c0) (c_b c1)) (ch (c_a c0) (c_a c1))
-      else search rest offset last
+  | (o0, col0) :: ((((o1, col1) :: _)) as rest) =>
+      if t_le O o0 offset && t_le O offset o1 then interp_gen O o0 o1 offset (c64_of col0) (c64_of col1)
+      else search_gen O rest offset last
   | _ => last
   end.
+
+Definition at_core_gen {T} (O : atops T) (stops : list (T * rgba)) (offset : T) : rgba64 :=
+  if negb (t_ge0 O offset) then c64_zero
+  else
+    match stops with
+    | [] => c64_zero
+    | (o0, col0) :: _ =>
+        let first := c64_of col0 in
+        let last := c64_of (snd (List.last stops (o0, col0))) in
+        if t_lt O offset o0 then first else search_gen O stops offset last
+    end.
+
+Definition F64at : atops f64 :=
+  mkAtOps f64 (fle F64) (flt F64) (fun x => fge F64 x d_zero) (fadd F64) (fsub F64) (fmul F64) (fdiv F64)
+          d_one (of_Z F64) to_u16.
+
+Definition stops64 (g : gradient f32) : list (f64 * rgba) := map (fun s => (f32_to_f64 (gs_off s), gs_col s)) (g_stops g).
 
 (* Gradient.At(x, y) for a gradient with at least two stops *)
 Definition grad_at (g : gradient f32) (x y : Z) : rgba64 :=
@@ -104,13 +130,4 @@ Definition grad_at (g : gradient f32) (x y : Z) : rgba64 :=
     else
       let gy := fadd F64 (fadd F64 (fmul F64 (e 3%nat) px) (fmul F64 (e 4%nat) py)) (e 5%nat) in
       clamp (g_spread g) (fsqrt F64 (fadd F64 (fmul F64 gx gx) (fmul F64 gy gy))) in
-  if negb (fge F64 offset d_zero) then c64_zero
-  else
-    match g_stops g with
-    | [] => c64_zero
-    | s0 :: _ =>
-        let first := c64_of (gs_col s0) in
-        let last := c64_of (gs_col (List.last (g_stops g) s0)) in
-        if flt F64 offset (f32_to_f64 (gs_off s0)) then first
-        else search (g_stops g) offset last
-    end.
+  at_core_gen F64at (stops64 g) offset.
